@@ -148,6 +148,8 @@ def main(argv):
     if note:
         c.assumptions.append("translator: the shape of the anchored code changed (" + note[:300] + "); the tie of the model to the code rests on the correspondence run below")
         log("  note: " + note[:300])
+    if c.tier == "thorough":
+        coqchk(c)
     drv, dlog = build_driver("C14")
     impl = hx_bin("hx_murmur")
     os.makedirs(SCRATCH, exist_ok=True)
@@ -194,6 +196,9 @@ def main(argv):
                     "hash-value" if m[0] in "HNM" else ("fold" if m[0] == "F" else "shard-index"), what, o,
                     " left fold" if m[0] in "FS" else "", want, l[:160]),
                     {"op": what, "case": l, "impl": o, "expected": want, "how": "echo '%s' | hx_murmur" % l[:300]})
+
+    if c.tier == "thorough":
+        asan_lines(c, "hx_murmur", lines, "(exact-size heap buffers)")
 
     # ---- native grid: all lengths x 8 alignments next to a PROT_NONE page, vs the Python reference
     maxlen = 512 if c.tier == "quick" else 4096
